@@ -325,6 +325,13 @@ Definition run_URL (op : N) (a : list tree) : tree :=
       | FsNotFound => T [L 1]
       | FsRefused => T [L 2]
       end
+  | 2, [file; content; comps] =>
+      let b := [[116]] in
+      match fs_fetch (fs_put (map t_bytes (t_list comps)) (t_bytes content) []) b (t_bytes file) with
+      | FsFound v => T [L 0; of_bytes v]
+      | FsNotFound => T [L 1]
+      | FsRefused => T [L 2]
+      end
   | _, _ => T [L 999]
   end.
 
